@@ -1,6 +1,7 @@
 package props
 
 import (
+	"fmt"
 	"go/ast"
 	"go/token"
 	"go/types"
@@ -15,12 +16,14 @@ func init() {
 			ID: "C11", Title: "Add-path identifiers are unique per prefix and never exhausted spuriously", Level: "other",
 			Technique:   "typed-AST control-equivalence (counter update ⇔ map insert/delete), field-coverage of the identifier hash against the attribute comparison, key-provenance of the released path",
 			DesignRef:   "DESIGN.md §4 C11",
-			Decided:     "(1) the in-use counter tracks the cardinality of the id map: every `used++` is control-equivalent with the insertion of a new id, every `used--` with the delete of the id, and the exhaustion test reads that counter; (1b) the hash → id map and the id → refcount map gain and lose an entry under the same condition (an id's hash entry lives exactly as long as the id); (2) the attribute hash that keys identifiers (ComputeHash) and the one that groups queued announcements (ComputeHashWithPathID) read every attribute field that the path comparison BGPPath.Compare/BGPPathA.compare distinguishes (PathIdentifier excepted for the former) and the OTC attribute the export side writes — two paths that differ in a field outside the hash share an identifier for the same prefix; (3) the path handed to releasePath is the stored object found in the Adj-RIB-Out (the one that was hashed when the id was allocated), and the withdrawal handed to clients is that stored path.",
+			Decided:     "(1) the in-use counter tracks the cardinality of the id map: every `used++` is control-equivalent with the insertion of a new id, every `used--` with the delete of the id, and the exhaustion test reads that counter; (1c) the per-identifier reference count follows its users: every successful return of addPath passes an increment (or the initial 1) of the count, every successful return of releasePath a decrement; the count is at least 32 bits wide; every function of the Adj-RIB-Out that takes paths out of the table also releases their identifiers; (1b) the hash → id map and the id → refcount map gain and lose an entry under the same condition (an id's hash entry lives exactly as long as the id); (2) the attribute hash that keys identifiers (ComputeHash) and the one that groups queued announcements (ComputeHashWithPathID) read every attribute field that the path comparison BGPPath.Compare/BGPPathA.compare distinguishes (PathIdentifier excepted for the former) and the OTC attribute the export side writes — two paths that differ in a field outside the hash share an identifier for the same prefix; (3) the path handed to releasePath is the stored object found in the Adj-RIB-Out (the one that was hashed when the id was allocated), and the withdrawal handed to clients is that stored path.",
 			NotDecided:  "hash collisions (SHA-256, ignored); wrap-around search of a free id near 2^32-1; uniqueness over whole add/remove histories.",
 			TrustedBase: stdTrusted,
 		},
 		Run: runC11,
 		Controls: []Control{
+			{Name: "known-path-not-counted", File: "routingtable/adjRIBOut/path_id_manager.go", Old: "\t\tid := fm.idByPath[hash]\n\t\tfm.ids[id]++\n\t\treturn id, nil\n", New: "\t\tid := fm.idByPath[hash]\n\t\treturn id, nil\n", Expect: "refcount-follows-users"},
+			{Name: "prefix-wiped-without-releasing-ids", File: "routingtable/adjRIBOut/adj_rib_out.go", Old: "\tfor _, path := range r.Paths() {\n\t\ta.removeExportedPath(pfx, path)\n\t}\n", New: "\ta.removePathsFromClients(pfx, a.rt.RemovePfx(pfx))\n", Expect: "refcount-follows-users"},
 			{Name: "hash-entry-dropped-on-every-release", File: "routingtable/adjRIBOut/path_id_manager.go", Old: "\t\tdelete(fm.idByPath, hash)\n\t\tfm.used--\n\t}\n", New: "\t\tfm.used--\n\t}\n\tdelete(fm.idByPath, hash)\n", Expect: "hash-map-tracks-id-map"},
 			{Name: "refactor-release-single-lookup", Silent: true, File: "routingtable/adjRIBOut/path_id_manager.go", Old: "\tif _, exists := fm.idByPath[hash]; !exists {\n\t\treturn 0, fmt.Errorf(\"ID not found for path: %s\", p.Print())\n\t}\n\n\tid := fm.idByPath[hash]\n\tfm.ids[id]--\n\tif fm.ids[id] == 0 {\n\t\tdelete(fm.ids, fm.idByPath[hash])\n", New: "\tid, exists := fm.idByPath[hash]\n\tif !exists {\n\t\treturn 0, fmt.Errorf(\"ID not found for path: %s\", p.Print())\n\t}\n\n\tfm.ids[id]--\n\tif fm.ids[id] == 0 {\n\t\tdelete(fm.ids, id)\n"},
 			{Name: "used-decrement-outside-delete", File: "routingtable/adjRIBOut/path_id_manager.go", Old: "\t\tdelete(fm.idByPath, hash)\n\t\tfm.used--\n\t}\n", New: "\t\tdelete(fm.idByPath, hash)\n\t}\n\tfm.used--\n", Expect: "counter-tracks-map"},
@@ -32,6 +35,7 @@ func init() {
 
 func runC11(c *core.Ctx) {
 	p := c.P
+	refcountFollowsUsers(c, "refcount-follows-users")
 	const pkg = "routingtable/adjRIBOut"
 	used := p.Field(pkg, "pathIDManager", "used")
 	ids := p.Field(pkg, "pathIDManager", "ids")
@@ -268,4 +272,95 @@ func sortedStrs(s []string) []string {
 		}
 	}
 	return s
+}
+
+// refcountFollowsUsers: one identifier is shared by all prefixes whose exported path has the same attributes; the
+// identifier lives as long as its reference count is positive.  (a) addPath: every success return is preceded by
+// `ids[x]++` or `ids[x] = 1`; (b) releasePath: every success return by `ids[x]--`; (c) the count is wide enough for the
+// number of prefixes of a full table (≥ 32 bits); (d) in package adjRIBOut paths leave the table only in functions that
+// release their identifier.
+func refcountFollowsUsers(c *core.Ctx, rule string) {
+	p := c.P
+	const pkg = "routingtable/adjRIBOut"
+	c.Floor(rule, 4)
+	ids := p.Field(pkg, "pathIDManager", "ids")
+	if ids == nil {
+		c.Undecided(rule, "pathIDManager.ids", token.NoPos, "field not found")
+		return
+	}
+	isIDsElem := func(f *core.Fn, e ast.Expr) bool {
+		ie, ok := core.Unparen(e).(*ast.IndexExpr)
+		return ok && core.FieldOf(f.Pkg, ie.X) == ids
+	}
+	for _, spec := range []struct {
+		fn  string
+		inc bool
+	}{{"addPath", true}, {"releasePath", false}} {
+		f := c.MustFunc(pkg + ".(*pathIDManager)." + spec.fn)
+		if f == nil {
+			continue
+		}
+		c.Analysed(f)
+		gate := func(n ast.Node) bool {
+			switch x := n.(type) {
+			case *ast.IncDecStmt:
+				return isIDsElem(f, x.X) && (x.Tok == token.INC) == spec.inc
+			case *ast.AssignStmt:
+				if spec.inc && len(x.Lhs) == 1 && len(x.Rhs) == 1 && isIDsElem(f, x.Lhs[0]) {
+					if v := core.ConstOf(f.Pkg, x.Rhs[0]); v != nil && v.ExactString() == "1" {
+						return true
+					}
+					return x.Tok == token.ADD_ASSIGN
+				}
+				if !spec.inc && len(x.Lhs) == 1 && isIDsElem(f, x.Lhs[0]) && x.Tok == token.SUB_ASSIGN {
+					return true
+				}
+			}
+			return false
+		}
+		rets, _ := core.ExitsWithout(p.CFG(f), gate)
+		var bad []*ast.ReturnStmt
+		for _, r := range rets {
+			// success returns: the error result is nil
+			if len(r.Results) == 2 {
+				if id, ok := core.Unparen(r.Results[1]).(*ast.Ident); ok && id.Name == "nil" {
+					bad = append(bad, r)
+				}
+			}
+		}
+		pos := f.Decl.Pos()
+		if len(bad) > 0 {
+			pos = bad[0].Pos()
+		}
+		what := "counts the new user of the identifier on every successful return"
+		why := "addPath can hand out an identifier without counting the new user: the first prefix that withdraws the path frees the identifier while other prefixes still carry it; their withdrawals then fail (`ID not found`) and are never sent, and the identifier is handed to a different path of the same prefix"
+		if !spec.inc {
+			what = "uncounts the user on every successful return"
+			why = "releasePath can succeed without decrementing the count: the identifier is never freed and allocation eventually reports exhaustion with identifiers unused"
+		}
+		c.Check(len(bad) == 0, rule, f.Name()+" "+what, pos, why)
+	}
+	// (c) width
+	if mt, ok := ids.Type().Underlying().(*types.Map); ok {
+		w := typeWidth(mt.Elem())
+		c.Check(w >= 32, rule, "pathIDManager.ids counts in at least 32 bits", ids.Pos(), fmt.Sprintf("the reference count is %d bits wide: with more prefixes sharing one exported path than it can count it wraps to 0 and the identifier is freed while in use", w))
+	}
+	// (d) removals release
+	rel := p.Func(pkg + ".(*pathIDManager).releasePath")
+	n := 0
+	for _, f := range p.FuncsIn(pkg) {
+		if f.Decl.Body == nil || isTestFn(p, f) {
+			continue
+		}
+		rms := core.Calls(f.Pkg, f.Decl.Body, core.KeyIs("routingtable.(*RoutingTable).RemovePath", "routingtable.(*RoutingTable).RemovePfx"))
+		if len(rms) == 0 {
+			continue
+		}
+		n++
+		c.Analysed(f)
+		releases := rel != nil && len(core.Calls(f.Pkg, f.Decl.Body, func(o *types.Func) bool { return o == rel.Obj })) > 0
+		c.Check(releases, rule, f.Name()+" releases the identifiers of the paths it takes out of the table", rms[0].Pos(),
+			"paths are removed from the Adj-RIB-Out table in a function that does not release their add-path identifiers: every such removal leaks an identifier (allocation reports exhaustion although nothing is advertised)")
+	}
+	c.Check(n >= 1, rule, "functions that take paths out of the Adj-RIB-Out table", token.NoPos, "none found")
 }
